@@ -52,6 +52,14 @@ Proof.
   - destruct (partition 64 (a0 :: ar)) as [[a f] b]. cbn [fst snd] in R. rewrite R. reflexivity.
 Qed.
 
+Lemma wf_ref_one_at iri t : wf_ref iri t = true ->
+  (count_char 64 (otx (g_authority (url_re t))) <= 1)%nat.
+Proof.
+  unfold wf_ref. rewrite url_re_rfc. intro H. do 3 (apply andb_true_iff in H as [H _]).
+  apply andb_true_iff in H as [_ H]. destruct (g_authority (url_re t)) as [a|]; [|cbn; lia].
+  cbn [otx]. unfold authority_ok in H. destruct (count_char 64 a) as [|[|n]]; [lia|lia|discriminate].
+Qed.
+
 Section Reads.
 Variable T : tables.
 Variable O : oracles.
@@ -75,14 +83,6 @@ Proof.
   rewrite !(unquote_is_ref T TOK). destruct v as [|v0 vr].
   - destruct sep; reflexivity.
   - destruct sep; [reflexivity|]. discriminate (NS eq_refl).
-Qed.
-
-Lemma wf_ref_one_at iri t : wf_ref iri t = true ->
-  (count_char 64 (otx (g_authority (url_re t))) <= 1)%nat.
-Proof.
-  unfold wf_ref. rewrite url_re_rfc. intro H. do 3 (apply andb_true_iff in H as [H _]).
-  apply andb_true_iff in H as [_ H]. destruct (g_authority (url_re t)) as [a|]; [|cbn; lia].
-  cbn [otx]. unfold authority_ok in H. destruct (count_char 64 a) as [|[|n]]; [lia|lia|discriminate].
 Qed.
 
 (* URL(t) = u for a well-formed reference t: the components of u are the Spec's reading of t *)
